@@ -191,6 +191,7 @@ def features(spec):
         "link_reservoir_to_reservoir": any(l["start"] not in tanks and l["end"] not in tanks and
                                            {l["start"], l["end"]} <= set(n["name"] for n in srcs) for l in elinks),
         "valve_setting_changed_by_control": any(c.get("attr", "setting") == "setting" for c in spec.get("controls", [])),
+        "valve_setting_changed_by_postsolve_condition": any(c.get("cond") for c in spec.get("controls", [])),
         "tank_volume_curve": any(n.get("vol_curve") for n in spec["nodes"]),
         "pattern_interpolation": bool(spec["options"].get("pattern_interpolation")),
         "unbalanced_continue": spec["options"].get("unbalanced") == "CONTINUE",
@@ -257,6 +258,41 @@ def gen_specs(ctx, n_random, n_scen):
             force["hw_approx"] = "piecewise"
         specs.append(G.random_network(rng, quick=ctx.quick, force=force))
     return specs
+
+
+def postsolve_setting_specs(ctx, wntr, n_each=1):
+    """valve scenarios with a POST-SOLVE conditional control (ValueCondition / RelativeCondition on junction pressures) whose action changes
+    the valve's SETTING.  The threshold is taken from a calibration run of the same network without the control, between the smallest and the
+    largest reported pressure of the watched junction, so that the condition is false at the first step and becomes true MID-RUN; plus one
+    condition that already holds after the first solve."""
+    rng = ctx.rng
+    out = []
+    for nm in ("prv", "fcv", "tcv", "psv") * n_each:
+        spec = G.scenario_network(rng, nm, variant=0)
+        spec["controls"] = []
+        spec["options"]["duration"] = 4 * spec["options"]["hydraulic_timestep"]
+        v = [l for l in spec["links"] if l["type"] == "valve"][0]
+        s0 = v["setting"]
+        new = round(s0 * 10.0, 3) if nm == "tcv" else round(s0 * 0.5, 6) if nm == "fcv" else round(s0 * 0.75, 2)
+        cap = run_sim_capture(wntr, spec)
+        mode = rng.choice(["mid", "mid", "first", "relative"])
+        cond = None
+        if cap["res"] is not None and mode == "mid":
+            pr = cap["res"].node["pressure"]
+            for node in ("JC", "JB", "JA"):
+                ser = [float(x) for x in pr[node].values]
+                if len(ser) >= 2 and max(ser) - min(ser) > 1e-3:
+                    thr = 0.5 * (max(ser) + min(ser))
+                    cond = {"node": node, "rel": "<" if ser[0] > thr else ">", "thr": thr}
+                    break
+        if cond is None and mode == "relative":
+            cond = {"node": "JA", "rel": ">", "other": "JC"}
+        if cond is None:
+            cond = {"node": "JA", "rel": ">", "thr": -1000.0}
+        spec["controls"].append({"link": v["name"], "value": new, "cond": cond, "kind": "control"})
+        spec["features"]["postsolve_setting_control"] = True
+        out.append(spec)
+    return out
 
 
 def small_spec(spec):
